@@ -75,7 +75,19 @@ def gen_file(r, fi, nblocks, scripts, counter):
         if layout.startswith("shared"):
             lines = [FILLER[ext] % (1000 + counter[0])]
             attrs = [(k, v) for k, v in attrs if k != "keep-sorted-format"]
-        blocks.append(B2(sb.name, attrs, list(lines), layout))
+        nb = B2(sb.name, attrs, list(lines), layout)
+        # now and then a one-line block shares its line with the previous one-line block (sibling blocks on one source line)
+        if layout == "shared" and blocks and blocks[-1].layout == "shared" and r.random() < 0.6:
+            nb.glue = True
+        blocks.append(nb)
+        if layout == "shared" and r.random() < 0.5 and len(blocks) < nblocks + 3:
+            counter[0] += 1
+            sb2 = scenario.gen_block(r, "n%d" % counter[0], scripts, use_ai=False, use_lua=True)
+            a2 = [(k, v) for k, v in sb2.attrs if k != "keep-sorted-format"]
+            a2.insert(1, ("data-rev", str(r.randint(1, 8))))
+            twin = B2(sb2.name, a2, [FILLER[ext] % (1000 + counter[0])], "shared")
+            twin.glue = True
+            blocks.append(twin)
     return path, ext, op, blocks
 
 
@@ -89,7 +101,10 @@ def render(ext, op, blocks, fill, tail=True):
             out.append(FILLER[ext] % fill[0])
 
     pad(3)
+    glue_to = None
     for b in blocks:
+        if not b.layout.startswith("shared"):
+            glue_to = None
         if b.layout == "line":
             s = len(out) + 1
             out.append("%s <block %s>" % (op, render_attrs(b.attrs)))
@@ -98,10 +113,21 @@ def render(ext, op, blocks, fill, tail=True):
             out.append("%s </block>%s" % (op, getattr(b, "end_suffix", "")))
             info[b.name] = {"s1": s, "s2": s, "e1": len(out), "e2": len(out)}
         elif b.layout in ("shared", "shared-mb"):
-            s = len(out) + 1
             prose = "日本語のコメントです — " if b.layout == "shared-mb" else ""
-            out.append("/* %s<block %s> */ %s /* </block>%s */" % (prose, render_attrs(b.attrs), b.lines[0], getattr(b, "end_suffix", "")))
+            text = "/* %s<block %s> */ %s /* </block>%s */" % (prose, render_attrs(b.attrs), b.lines[0], getattr(b, "end_suffix", ""))
+            if getattr(b, "glue", False) and glue_to is not None:
+                # a sibling block on the very line of the previous one-line block
+                out[glue_to - 1] += " " + text
+                s = glue_to
+            else:
+                s = len(out) + 1
+                out.append(text)
             info[b.name] = {"s1": s, "s2": s, "e1": s, "e2": s}
+            glue_to = s
+            if not (tail or b is not blocks[-1]):
+                continue
+            if blocks.index(b) + 1 < len(blocks) and getattr(blocks[blocks.index(b) + 1], "glue", False):
+                continue          # the next block joins this line: no filler in between
         elif b.layout == "mlcomment":
             # `/* <block ..>` NEWLINE `   free text N */`: the content starts on a later line than the tag
             s = len(out) + 1
